@@ -21,8 +21,8 @@ SPEC = {
             "variables and FB members; VAR_ACCESS; VAR_CONFIG values; tasks with SINGLE/INTERVAL and FB task "
             "bindings) x history of 12-16 steps over cycle(dt) / direct input write / restart(cold|warm) / "
             "restart+load / fault / access write / save / power cycle (new runtime + store [+ start-up restart] + "
-            "load); after every cold restart a freshly built twin receives the same continuation.  Cases 0-6 are "
-            "the recorded witnesses of the known findings (1 and 2: regression cases of fixed ones).  non-trivial = a restart or power cycle happened after "
+            "load); after every cold restart a freshly built twin receives the same continuation.  Cases 0-8 are "
+            "the recorded witnesses of the known findings (1, 2, 7, 8: regression cases).  non-trivial = a restart or power cycle happened after "
             "at least one executed cycle; distinct = by hash of the case's description + operation lines",
     "trusted_base": [
         "Lean 4.33.0 kernel; axioms per theorem listed under 'theorems'",
